@@ -19,7 +19,8 @@ PROPERTY = "C19"
 
 # CODE VARIANT FLAGS — which variant of the code the model is compared with (fields of `Ansi.Cfg` in
 # lean/RichModel/Model/Ansi.lean).  1 = rich 9.10.0 as found, 0 = repaired = what /repo contains now
-# (fixes 8dc20cb, c4ae818 = the former /verif/pending_fixes/C19-*.diff).
+# (fixes 8dc20cb F10, c4ae818 F20, eb349e5 F27, c143415 F28, b9c1000 F29, 70d7986 F31, a4759bf F32, 37dd303 F33:
+# all eight are in /repo, all eight flags are 0).
 INT_RAISES = 0   # F10: AnsiDecoder.decode_line lets int()'s ValueError out ("\x1b[²m", > 4300 digits)
 FLUSH_RAW = 0    # F20: FileProxy.flush prints the pending text as a str (markup / emoji / highlight on, not decoded)
 EMPTY_IGNORED = 0      # F27: an omitted SGR parameter is dropped: "\x1b[m" does not reset (ECMA-48: omitted = 0)
@@ -1287,7 +1288,8 @@ def run(ctx):
         "through standard / 256 / windows / no-colour consoles and Style.render(color_system=lower) in the same process right before the "
         "truecolor encode, so a stale cache shows as a model mismatch and a round-trip failure; "
         "link ids are parameters; str.isdigit / int() / sys.get_int_max_str_digits are tables generated from the running Python",
-        "round trip hypothesis (noEsc): no ESC and no stripped control code (BS VT FF CR) in the text, no ESC / LF / CR in links; "
+        "round trip hypothesis (noEsc): no ESC and no stripped control code (BS VT FF CR) in the text, no ESC / LF / CR / BEL in links "
+        "and link ids, no `;` in link ids; "
         "colours as Color.parse / from_ansi / from_rgb build them (a WINDOWS or out-of-range colour is compared by terminal meaning)",
     ]
     guarded(ctx, "_ansi_tokenize", lambda tick: section_tokenizer(ctx, tick))
@@ -1300,12 +1302,15 @@ def run(ctx):
     ctx.rule = (
         "tokenizer: every string <= %d over %r + seeded random to length 14; decoder: every SGR code 0..300 from the null and from a "
         "fully set state, every 38/48 sub-form, every sequence <= 3 over %d tokens, seeded structured streams (valid + truncated + "
-        "malformed parameters, OSC 8, other CSI, all line separators); encoder/round trip: seeded segment lists and printed Texts with "
+        "malformed parameters, OSC 8 ended by ST or BEL, other CSI, all line separators), probes of escape sequences that are neither SGR, OSC "
+        "nor CSI (compared with the model, counted as observed, not checked); encoder/round trip: seeded segment lists and printed Texts with "
         "styles from the product 13 tri-state attributes x 10 colour kinds x 10 colour kinds x 6 links on shared style objects and two "
         "consoles; proxy: every pair of cut positions (x flushes at the cuts) of fixed streams + seeded random streams cut at random "
         "positions with empty writes and flushes, one and two proxies per console (interleaved, per-op events), foreign ANSI streams (omitted "
         "parameters, resets inside hyperlinks, every off code) against an ECMA-48 interpreter, legacy_windows renders, real Live / Progress / transient "
-        "Live with both streams, terminal replay after every write and at stop (pending partial lines); distinct = distinct canonical requests"
+        "Live with both streams, terminal replay after every write and at stop (pending partial lines), lines with carriage returns inside "
+        "(last segment kept, compared with a terminal replay), C10's display model and the proxy model on the same histories; "
+        "distinct = distinct canonical requests"
         % (4 if ctx.quick else 5, TOK_ALPHA, len(DEC_ALPHA))
     )
 
@@ -1338,8 +1343,8 @@ def replay(ctx, case):
 
 MANIFEST = {
     "text": "Lean 4 theorems (Props/C19.lean; no bound on line length, number of segments, styles, or history length). "
-    "Round trip: decode_encode — for every line of segments whose text has no ESC / stripped control code, whose links have no ESC / line "
-    "break and whose colours are in the form the constructors build, and for every blank decoder state, `_render_buffer` (truecolor, "
+    "Round trip: decode_encode — for every line of segments whose text has no ESC / stripped control code, whose links and link ids have no ESC / line "
+    "break / BEL and whose colours are in the form the constructors build, and for every blank decoder state, `_render_buffer` (truecolor, "
     "Style.render + _make_ansi_codes) followed by AnsiDecoder.decode_line yields per character the same character, the same attributes "
     "that are on (13), the same colours (type, number, triplet) and the same link, and leaves the decoder blank; decode_encode_lines lifts it to "
     "texts decoded line after line by one decoder; decode_plain_complete (escape-free lines come out unchanged); the table half "
@@ -1364,7 +1369,7 @@ MANIFEST = {
     "live_screen_with_proxied_streams (C10's live_screen composed: start; any prints / refreshes / updates / resizes / writes to both streams; repaired stop — "
     "the screen shows the printed lines then the last frame, the printed lines being op by op what the proxy hands over, per stream exactly the complete lines "
     "of its own character stream, pending text completed above the last frame); both drivers are run on the same histories (section_joint).  legacy_windows: decode_encode_legacy (round trip with the link dropped).  "
-    "Tie: ~150k (quick) / ~1.5M (thorough) generated cases compared model-vs-rich for _ansi_tokenize, re_csi removal, decode_line / decode "
+    "Tie: ~160k (quick) / ~1.5M (thorough) generated cases compared model-vs-rich for _ansi_tokenize, re_csi removal, decode_line / decode "
     "(final decoder style included), Style.render / _render_buffer, and FileProxy histories (what the proxy asks console.print to print, per call), "
     "plus direct evaluation on rich's own output with oracles independent of the model: harness/term.py tokenizer + an ECMA-48 reading of SGR "
     "for the per-character meaning of streams, and a 15-line specification of the units a history must print; real Live / Progress redirect stdout "
@@ -1374,13 +1379,18 @@ MANIFEST = {
     "the Style._ansi cache is not part of the encoder model but is exercised, not assumed transparent (every round-trip case first renders the same Style "
     "objects / parse-cached definitions through standard, 256, windows and no-colour consoles in the same process, then encodes for truecolor); link ids; str.isdigit / int / get_int_max_str_digits / "
     "str.splitlines of the running Python (generated or validated per run); lru_cache on Style.parse transparent; console.print of a Text with "
-    "markup off does not raise.  Round-trip hypotheses: no ESC, BS, VT, FF, CR in text; no ESC / LF / CR in links; no `;` in link ids; colours "
+    "markup off does not raise.  Round-trip hypotheses: no ESC, BS, VT, FF, CR in text; no ESC / LF / CR / BEL in links and link ids (BEL ends an OSC string since fix 37dd303); no `;` in link ids; colours "
     "canonical (a WINDOWS-type colour reads back as STANDARD: compared by terminal meaning in the harness, outside the theorem); AnsiDecoder.decode "
     "additionally splits at VT FF FS GS RS NEL LS PS (str.splitlines), so a printed text containing those decodes into more lines than were printed "
-    "(observed, outside the statement's texts).  Deviations of the decoder from ECMA-48 on foreign streams are findings with flags, witnesses and diffs: omitted parameter "
-    "ignored (F27), SGR 0 drops the hyperlink (F28), 24 / 25 keep the double variants (F29), a line ending in CR decodes to nothing (F31), any `ESC [` "
-    "is read as SGR up to the next m so other CSI sequences swallow the text after them (F32); an OSC string ended by BEL — the common form of OSC 8 / OSC 0 — is not recognised: link lost, "
-    "`8;;url` printed (F33); a CR that is not at the end of a line keeps what follows the last one that is followed by text "
+    "(observed, outside the statement's texts).  Variant flags (1 = rich 9.10.0 as found, 0 = repaired; all eight fixes are in /repo): INT_RAISES = 0 (F10, fix 8dc20cb), "
+    "FLUSH_RAW = 0 (F20, fix c4ae818), EMPTY_IGNORED = 0 (F27, fix eb349e5), RESET_DROPS_LINK = 0 (F28, fix c143415), OFF_SINGLE = 0 (F29, fix b9c1000), CR_ERASES = 0 "
+    "(F31, fix 70d7986), SGR_LAZY = 0 (F32, fix a4759bf), OSC_ST_ONLY = 0 (F33, fix 37dd303).  No `known:` finding is open for C19: the check prints no KNOWN-FINDING line; the "
+    "slugs in the classifiers (decode-int-valueerror, flush-prints-raw, sgr-empty-param-ignored, sgr-reset-drops-link, sgr-off-keeps-double, decode-trailing-cr-erases-line, "
+    "csi-swallows-text, osc-bel-terminator) name the eight repaired findings.  The deviations of the decoder from ECMA-48 on foreign streams in rich 9.10.0 as found were findings "
+    "with flags and witnesses, all repaired: omitted parameter "
+    "ignored (F27), SGR 0 dropped the hyperlink (F28), 24 / 25 kept the double variants (F29), a line ending in CR decoded to nothing (F31), any `ESC [` "
+    "was read as SGR up to the next m so other CSI sequences swallowed the text after them (F32); an OSC string ended by BEL — the common form of OSC 8 / OSC 0 — was not recognised: link lost, "
+    "`8;;url` printed (F33).  Outside the statement, not findings: a CR that is not at the end of a line keeps what follows the last one that is followed by text "
     "(decode_cr_keeps_last_segment; evaluated on real rich: equal to what a terminal shows whenever the later text covers the earlier, counted otherwise); "
     "control strings DCS / SOS / PM / APC lose introducer and terminator and their payload is printed as text, 8-bit C1 controls and two-character escapes "
     "outside ESC @.._ are kept verbatim, ISO 8613-6 colon sub-parameters are ignored (all four: classified outside the statement in the header of "
@@ -1393,7 +1403,9 @@ MANIFEST = {
     "histories are compared with the model per operation (proxy_run2) and the screen under a running Live is replayed after every write; "
     "FileProxy.write returns 0 instead of the number of characters (io contract; not in the property, noted only).  What the console writes for a proxied "
     "Text under a running Live is evaluated directly by replaying the console's file on harness/term.py after every write (cell by cell with attributes / "
-    "colours / links, frame last); it is not part of the Lean model (C10's Model/Live.lean is not composed with the proxy).  "
+    "colours / links, frame last).  On the Lean side C10's Model/Live.lean is composed with the proxy for line texts only (live_write_is_proxy_write, "
+    "live_screen_with_proxied_streams: which lines stand above the last frame, per stream; escape-free lines unchanged); the cells the console writes for a "
+    "decoded, styled Text are not in that composition.  "
     "Trusted: Lean kernel; axioms propext / Classical.choice / Quot.sound; translators harness/tables.py + harness/gen/sgr_map.py; the correspondence harness.",
     "design_ref": "DESIGN.md section 7, C19",
 }
